@@ -215,6 +215,8 @@ def matches(obs, model, soft=False):
         sig = type(obs[1]).__name__ + ': ' + ' '.join(str(a) for a in obs[1].args[:1])
         if not any(s in sig for s in f.sigs):
             return False
+        if f.who and 'has invalid dimension' in sig and ("'%s'" % f.who) not in sig:
+            return False
         code = raising_node_code(obs[1])
         if f.who and code and code.split()[0] not in (f.who, f.who.split('.')[-1]):
             return False
@@ -265,7 +267,7 @@ def judge(prog, obs, with_extra, devs, label):
         for S in itertools.combinations(R.ALL_FLAGS, k):
             tw = R.run_model(prog, frozenset(S), with_extra)
             if matches(obs, tw):
-                for key in S:
+                for key in sorted({R.key_of(f) for f in S}):
                     devs.append(dev('explained-by-recorded-defect', dict(variant=label, keys=list(S),
                                                                          observed=describe(obs)), known=key))
                 return exp
